@@ -377,6 +377,13 @@ func runSigners(seed uint64, nOps int, outPath string) map[string]int {
 			sdk.NewCoin("zjunk", pow10(30)), sdk.NewCoin("acoina", pow2(120)), sdk.NewCoin("acanto", pow2(100)))
 		s.w = NewEvmWorld(5, fund, cs.now, byte(world))
 		cs.w = s.w
+		// module accounts that are no party to any message hold coins (collected fees, the community pool)
+		for _, m := range []string{"fee_collector", "distribution"} {
+			if err := s.w.App.BankKeeper.SendCoins(s.w.Ctx, s.w.Users[0], authtypes.NewModuleAddress(m),
+				sdk.NewCoins(sdk.NewCoin("stake", pow2(150)), sdk.NewCoin("ausdc", pow2(150)), sdk.NewCoin("abtc", pow2(150)), sdk.NewCoin("ibc/ETH", pow2(150)), sdk.NewCoin("acanto", pow2(80)))); err != nil {
+				panic(err)
+			}
+		}
 		cs.std, _ = s.w.App.CoinswapKeeper.GetStandardDenom(s.w.Ctx)
 		s.cs = cs
 		w := s.w
